@@ -46,6 +46,53 @@ struct Exact
     Exact &operator=(const Exact &) = delete;
 };
 
+// a copy in READ-ONLY memory, flush against an inaccessible page: one page PROT_READ holding the bytes at its end, the next
+// page PROT_NONE.  An encoder that patches its input even temporarily (sentinel, restored afterwards) faults here.
+#include <sys/mman.h>
+struct ReadOnly
+{
+    uint8_t *map, *p;
+    size_t n, maplen;
+    ReadOnly(const uint8_t *src, size_t n_) : n(n_)
+    {
+        size_t pg = 4096, body = ((n + pg - 1) / pg + (n == 0)) * pg;
+        maplen = body + pg;
+        map = (uint8_t *)mmap(nullptr, maplen, PROT_READ | PROT_WRITE, MAP_PRIVATE | MAP_ANONYMOUS, -1, 0);
+        if (map == MAP_FAILED)
+            mc::harness_error("mmap failed");
+        memset(map, 0xD7, body);
+        p = map + body - n;
+        if (n)
+            memcpy(p, src, n);
+        mprotect(map, body, PROT_READ);
+        mprotect(map + body, pg, PROT_NONE);
+    }
+    ~ReadOnly() { munmap(map, maplen); }
+    ReadOnly(const ReadOnly &) = delete;
+    ReadOnly &operator=(const ReadOnly &) = delete;
+};
+// an input block of either kind
+struct Input
+{
+    Exact *e = nullptr;
+    ReadOnly *r = nullptr;
+    uint8_t *p;
+    Input(const uint8_t *src, size_t n, int align, bool readonly)
+    {
+        if (readonly)
+            r = new ReadOnly(src, n), p = r->p;
+        else
+            e = new Exact(src, n, align), p = e->p;
+    }
+    ~Input()
+    {
+        delete e;
+        delete r;
+    }
+    Input(const Input &) = delete;
+    Input &operator=(const Input &) = delete;
+};
+
 static const char *input_class(const gs::Markers &M, const Bytes &p)
 {
     size_t mk = 0;
@@ -73,6 +120,7 @@ struct Ctx
     uint64_t encodes = 0, oracle_runs = 0;
     Bytes scratch;
     int align = 0; // misalignment (0..7) of every input block handed to the encoders
+    bool readonly = false; // inputs (payload, pieces, iovec array) live in read-only memory
 };
 
 static std::string sig(const Ctx &c, int entry, const char *kind)
@@ -201,7 +249,7 @@ static void run_entry(Ctx &c, int entry, const std::vector<Piece> &ps, bool null
     f.clear();
     if (entry == gs::RAW || entry == gs::VEC)
     {
-        Exact in(p.data(), n, c.align);
+        Input in(p.data(), n, c.align, c.readonly);
         if (entry == gs::RAW)
         {
             Exact out(2 * n + 4);
@@ -229,12 +277,12 @@ static void run_entry(Ctx &c, int entry, const std::vector<Piece> &ps, bool null
         // every piece is its own exactly sized heap block (plain arrays: this is the hot loop)
         struct Hold
         {
-            uint8_t *b[16];
+            Input *b[16];
             size_t k = 0;
             ~Hold()
             {
                 for (size_t i = 0; i < k; i++)
-                    free(b[i]);
+                    delete b[i];
             }
         } hold;
         struct
@@ -253,17 +301,15 @@ static void run_entry(Ctx &c, int entry, const std::vector<Piece> &ps, bool null
                 v.iov_base = nullptr;
             else
             {
-                uint8_t *b = (uint8_t *)malloc(q.len + (size_t)c.align);
-                if (q.len)
-                    memcpy(b + c.align, p.data() + q.off, q.len);
+                Input *b = new Input(p.data() + q.off, q.len, c.align, c.readonly);
                 hold.b[hold.k++] = b;
-                v.iov_base = b + c.align;
+                v.iov_base = b->p;
             }
             v.iov_len = q.len;
             iov.v[iov.k++] = v;
         }
         // the iovec array itself is exactly sized too
-        Exact arr((const uint8_t *)iov.data(), iov.size() * sizeof(struct iovec));
+        Input arr((const uint8_t *)iov.data(), iov.size() * sizeof(struct iovec), 0, c.readonly);
         // the caller's inputs are read-only for an encoder: the iovec array and every piece must be unchanged afterwards
         auto inputs_intact = [&]() {
             if (iov.size() && memcmp(arr.p, iov.data(), iov.size() * sizeof(struct iovec)) != 0)
@@ -377,18 +423,20 @@ enum Parts
     P_FEW = 2        // few_partitions (long payloads)
 };
 
-static void check_payload(int codec, const Bytes &p, int mode, int parts, int align = 0)
+static void check_payload(int codec, const Bytes &p, int mode, int parts, int align = 0, bool readonly = false)
 {
     Ctx c;
     c.align = align;
+    c.readonly = readonly;
     c.codec = codec;
     c.M = gsref::golden(codec);
     c.payload = &p;
     c.cls = input_class(c.M, p);
-    mc::describe("codec=%s payload=%s (%zu bytes, %s) entry group=%s input misalignment=%d", gs::codec_name(codec),
+    mc::describe("codec=%s payload=%s (%zu bytes, %s) entry group=%s input misalignment=%d%s", gs::codec_name(codec),
                  p.size() <= 32 ? gsref::hex(p).c_str() : (gsref::hex(Bytes(p.begin(), p.begin() + 16)) + "...").c_str(), p.size(), c.cls,
-                 mode == M_RAW ? "raw buffers" : mode == M_VEC ? "vector gstuffing(buffer)" : "vector gstuffing_v", align);
-    if (align || (strcmp(c.cls, "plain") != 0 && strcmp(c.cls, "empty") != 0))
+                 mode == M_RAW ? "raw buffers" : mode == M_VEC ? "vector gstuffing(buffer)" : "vector gstuffing_v", align,
+                 readonly ? ", inputs in read-only memory" : "");
+    if (align || readonly || (strcmp(c.cls, "plain") != 0 && strcmp(c.cls, "empty") != 0))
         mc::nontrivial();
     if (mode == M_RAW)
     {
@@ -640,10 +688,11 @@ static void cut_then_frames_case(int codec)
 // Fresh worker process per case (mc::request_restart): two receivers of different codecs are created and the encoder
 // outputs for the same payload are fed to them alternately, byte by byte; which receiver gets the first byte of the
 // process is a case dimension.  Each must report exactly one packet, on its last byte, equal to the payload - twice.
-static void two_alphabets_case()
+static void two_receivers_case()
 {
-    static const int PAIR[3][2] = {{gs::CFG_V1, gs::CFG_V0}, {gs::CFG_V1, gs::LEGACY}, {gs::CFG_V0, gs::LEGACY}};
-    int first = mc::choose(3 * 2 * 12);
+    static const int PAIR[6][2] = {{gs::CFG_V1, gs::CFG_V0}, {gs::CFG_V1, gs::LEGACY}, {gs::CFG_V0, gs::LEGACY},
+                                   {gs::CFG_V1, gs::CFG_V1}, {gs::CFG_V0, gs::CFG_V0}, {gs::LEGACY, gs::LEGACY}};
+    int first = mc::choose(6 * 2 * 12);
     mc::request_restart();
     int pi = first % 12, order = first / 12 % 2, pr = first / 24;
     int codec[2] = {PAIR[pr][order], PAIR[pr][1 - order]};
@@ -653,8 +702,8 @@ static void two_alphabets_case()
         gs::Markers M = gsref::golden(codec[t]);
         Bytes PP[12] = {{}, {'a'}, {M.start}, {M.stop}, {M.stub}, {M.start, M.start}, {'a', M.start, 'b'}, {M.stub, M.stop}, {M.start, 'a', M.stub},
                         {0xFF}, {M.c_start, M.c_stub}, {'a', 'b', 'c', M.start}};
-        p[t] = PP[pi];
-        mc::crash_context("C04.two_alphabets.memory");
+        p[t] = PP[(pi + 5 * t) % 12]; // the second receiver gets another payload: the two streams are out of step
+        mc::crash_context("C04.two_receivers.memory");
         f[t] = lib_encode(codec[t], p[t]);
     }
     mc::describe("fresh process; receiver %s gets the first byte, alternating with %s; payloads %s / %s, each frame twice", gs::codec_name(codec[0]),
@@ -679,7 +728,7 @@ static void two_alphabets_case()
                 if (last != (st == gs::NEWPACKAGE) || (last && r[t]->packet() != p[t]))
                 {
                     bad[t] = true;
-                    mc::violation(mc::fmt("C04.two_alphabets.%s.%s", gs::codec_name(codec[t]), t == 0 ? "fed_first" : "fed_second"),
+                    mc::violation(mc::fmt("C04.two_receivers.%s.%s", gs::codec_name(codec[t]), t == 0 ? "fed_first" : "fed_second"),
                                   "other receiver: %s; payload=%s stream=%s byte %zu answered %s%s", gs::codec_name(codec[1 - t]),
                                   gsref::hex(p[t]).c_str(), gsref::hex(s[t]).c_str(), i, gs::status_name(st),
                                   last && st == gs::NEWPACKAGE ? " with wrong content" : "");
@@ -691,7 +740,7 @@ static void two_alphabets_case()
 
 MC_INIT
 {
-    mc::add_check("two_alphabets_one_process", two_alphabets_case);
+    mc::add_check("two_receivers_one_process", two_receivers_case);
     for (int codec = 0; codec < gs::NCODEC; codec++)
         mc::add_check(mc::fmt("cut_then_frames.%s", gs::codec_name(codec)), [codec] { cut_then_frames_case(codec); });
 }
@@ -753,6 +802,20 @@ MC_INIT
                 p.push_back(pattern == 0 ? (uint8_t)(i * 37 + 1) : pattern == 1 ? (uint8_t)'a' : (i % 3 == 0 ? M.start : i % 3 == 1 ? M.stub : M.stop));
             int mode = mc::choose(nmodes(codec));
             check_payload(codec, p, mode, n <= 5 ? P_ALL : P_FEW, align);
+        });
+        // (e) inputs in read-only memory (payload in ROM / a string literal, a const iovec table): every length 0..12 x 3
+        //     patterns x every entry point; the payload, every iovec piece and the iovec array are PROT_READ pages
+        mc::add_check(mc::fmt("readonly_inputs.%s", gs::codec_name(codec)), [codec] {
+            int first = mc::choose(13 * 3 * 2);
+            int n = first / 6, pattern = first / 2 % 3, endm = first % 2;
+            gs::Markers M = gsref::golden(codec);
+            Bytes p;
+            for (int i = 0; i < n; i++)
+                p.push_back(pattern == 0 ? (uint8_t)(i * 37 + 1) : pattern == 1 ? (uint8_t)'a' : (i % 3 == 0 ? M.start : i % 3 == 1 ? M.stub : M.stop));
+            if (endm && n)
+                p.back() = M.start; // a marker as the last byte
+            int mode = mc::choose(nmodes(codec));
+            check_payload(codec, p, mode, n <= 4 ? P_ALL : P_FEW, 0, true);
         });
         // (c) long payloads, 253..300 bytes: lengths, frame lengths and receiver capacities (n+2, n+9) cross 255/256,
         //     where a narrowed length or capacity field would wrap
